@@ -15,6 +15,7 @@ def _mods():
     from simpletal import simpleTAL, simpleTALES
     import talgen
     talgen.CV_FACTORY[0] = simpleTALES.ContextVariable
+    talgen.TPL_FACTORY[0] = lambda src, tree: simpleTAL.compileHTMLTemplate(src)
     return simpleTAL, simpleTALES
 
 
